@@ -680,6 +680,9 @@ inductive SqKind where
   | running
   /-- a bare `lambda x: (tag, "lam", x)` -/
   | lam
+  /-- like `lena.flow.Cache`: the first run stores its input and yields `(tag, "c", x)`; every
+  later run ignores its input and replays the stored values -/
+  | cache
   deriving Repr, DecidableEq
 
 /-- a harness branch -/
@@ -751,6 +754,9 @@ def sqRun (tag : Nat) (v : SqKind) (s : BState) (buf : List V) : List V × BStat
   | .running =>
     let r := runningLoop tag s.n buf
     (r.1, { s with n := r.2 })
+  | .cache =>
+    if s.calls = 0 then (buf.map (fun x => tagged tag "c" [x]), { s with filled := buf, calls := 1 })
+    else (s.filled.map (fun x => tagged tag "c" [x]), { s with calls := s.calls + 1 })
 
 /-- the methods of a harness branch with tag `tag` -/
 def BSpec.ops (tag : Nat) : BSpec → Ops BState V
